@@ -88,6 +88,27 @@ module N =
     | Gt -> false
     | _ -> true
 
+  (** val ltb : coq_N -> coq_N -> bool **)
+
+  let ltb x y =
+    match compare x y with
+    | Lt -> true
+    | _ -> false
+
+  (** val min : coq_N -> coq_N -> coq_N **)
+
+  let min n n' =
+    match compare n n' with
+    | Gt -> n'
+    | _ -> n
+
+  (** val max : coq_N -> coq_N -> coq_N **)
+
+  let max n n' =
+    match compare n n' with
+    | Gt -> n
+    | _ -> n'
+
   (** val pos_div_eucl : positive -> coq_N -> coq_N * coq_N **)
 
   let rec pos_div_eucl a b =
@@ -116,6 +137,11 @@ module N =
     | Npos na -> (match b with
                   | N0 -> (N0, a)
                   | Npos _ -> pos_div_eucl na b)
+
+  (** val modulo : coq_N -> coq_N -> coq_N **)
+
+  let modulo a b =
+    snd (div_eucl a b)
 
   (** val coq_lor : coq_N -> coq_N -> coq_N **)
 
@@ -158,4 +184,10 @@ module N =
   let to_nat = function
   | N0 -> O
   | Npos p -> Pos.to_nat p
+
+  (** val of_nat : nat -> coq_N **)
+
+  let of_nat = function
+  | O -> N0
+  | S n' -> Npos (Pos.of_succ_nat n')
  end
